@@ -37,7 +37,9 @@ func main() {
 			"role filters on tools / prompts / resources in three styles (allocating; compacting their input in place; sorting it in place first); 12+ raw clients " +
 			"(own session each, two sharing one; half of them only list, with alternating roles) and 3 library clients per server issue " +
 			"list / call / get / read / ping / notification requests concurrently, every request with its own token in three headers and a role; every fourth request " +
-			"lingers 0.3 ms in the outermost middleware after next() returned; " +
+			"lingers 0.3 ms in the outermost middleware after next() returned; then an in-process phase without network: 8 (thorough 16) goroutines, " +
+			"each bound to its own session, call Handler().ServeHTTP back to back for 1.5 s (thorough 5 s) per server kind (stateful, stateless, legacy SSE) with " +
+			"GOMAXPROCS >= 8, every stage checking lock-free that session / client session / sender / context-function values are its own request's; " +
 			"a case is non-trivial when the request was answered and every expected stage recorded its context",
 		Run: run})
 }
@@ -908,6 +910,8 @@ func run(c *hk.Ctx) {
 			}
 		}
 	}
+	runtime.GOMAXPROCS(def)
+	runHammer(c)
 	c.SetExtra("requests", total)
 	c.SetExtra("gomaxprocs", procs)
 	c.SetExtra("legacy_sse_context_function", "applied by handleMessage to the POST carrying the request (the stream's GET context is not used for requests); one function only, the last WithSSEContextFunc wins")
